@@ -232,6 +232,14 @@ def _anc(n):
     return list(ancestors(n))
 
 
+def bypass_harmless(g, node_id: int, list_attr: str) -> bool:
+    """Every path entry->return that avoids `node_id` carries the fact that self.<list_attr> is empty (so a loop over it,
+    or a phase that only concerns its members, has nothing to do)."""
+    IN = g.facts(blocked={node_id})
+    ex = IN.get(g.exit.id)
+    return ex is None or norm.entails(ex, ("truth", f"self.{list_attr}", False))
+
+
 _PA_CACHE: Dict[int, PoolAnalysis] = {}
 
 
@@ -270,7 +278,7 @@ def ob_moves_classified(ctx, num):
     return pa
 
 
-def ob_deltas(ctx, num):
+def ob_deltas(ctx, num, amounts: bool = True, conditions: bool = True):
     pa = pool_analysis(ctx.P)
     f = pa.f
     for mv in pa.moves:
@@ -280,7 +288,7 @@ def ob_deltas(ctx, num):
         got: Dict[str, List[Delta]] = {"cpu": [], "ram": []}
         for d in mv.deltas:
             got[d.res].append(d)
-        for res in ("cpu", "ram"):
+        for res in (("cpu", "ram") if amounts else ()):
             ds = got[res]
             if res not in exp:
                 ctx.ob(num, "K4", f"move {mv.kind} changes no free {res.upper()}", not ds, f, ds[0].node if ds else mv.anchor,
@@ -294,7 +302,7 @@ def ob_deltas(ctx, num):
                    ok, f, ds[0].node if ds else mv.anchor, construct=None if ds else f"{mv.kind}: missing {res} delta",
                    detail=f"expected `self.avail_{res}_pool {'+' if sign > 0 else '-'}= {amount}` in the block of `{stmt_text(mv.anchor)}`; "
                           f"found {[stmt_text(d.node) for d in ds]}")
-        req = pa.cond_required(mv)
+        req = pa.cond_required(mv) if conditions else None
         if req is not None:
             fs = pa.g.facts_at(mv.anchor)
             ok = norm.entails(fs, req)
@@ -308,8 +316,11 @@ def ob_deltas(ctx, num):
             for lp, what in ((mv.src_loop, "collecting loop"), (mv.drain_loop, "removal loop")):
                 if lp is not None:
                     pth = pa.g.path_avoiding(pa.g.entry.id, {pa.g.exit.id}, {pa.g.node_of(lp).id})
-                    ctx.ob(num, "K3", f"the {what} of move {mv.kind} runs in every tick (cannot be bypassed)", pth is None, f, lp,
-                           detail="on every path entry->return" if pth is None else f"bypass: {pa.g.describe_path(pth)}")
+                    src_list = _list_attr(mv.src_loop.iter) if mv.src_loop is not None else None
+                    okb = pth is None or (src_list is not None and bypass_harmless(pa.g, pa.g.node_of(mv.src_loop).id, src_list))
+                    ctx.ob(num, "K3", f"the {what} of move {mv.kind} runs in every tick (cannot be bypassed while its source list is non-empty)", okb, f, lp,
+                           detail="on every path entry->return" if pth is None else f"bypass: {pa.g.describe_path(pth)}"
+                           + ("; the source list is known empty on every bypass" if okb else ""))
             if mv.drain_loop is not None:
                 # every collected container is removed: all list operations of the drain loop are unconditional in its body
                 hid = pa.g.node_of(mv.drain_loop).id
@@ -318,6 +329,8 @@ def ob_deltas(ctx, num):
                                              edge_ok=lambda a, b, lab, hid=hid: not (a == hid and lab == "done"))
                     ctx.ob(num, "K4", f"move {mv.kind}: every collected container is actually moved ({norm.U(s)})", pth is None, f, s,
                            detail="unconditional in the removal loop" if pth is None else f"can be skipped: {pa.g.describe_path(pth)}")
+    if not amounts:
+        return
     for d in pa.stray:
         ctx.ob(num, "K4", "free CPU/RAM changes only as part of a container move", False, f, d.node,
                detail="this write to the pool's free resources is not control-equivalent with any container move")
@@ -327,3 +340,89 @@ def ob_deltas(ctx, num):
     if not pa.stray:
         ctx.ob(num, "K4", "free CPU/RAM changes only as part of a container move", True, f, f.node, construct="writes to avail_cpu_pool/avail_ram_pool",
                detail=f"{len(pa.deltas)} writes, all paired with a move")
+
+
+def may_kill_calls(P, f: Func, depth: int = 4) -> List[ast.Call]:
+    """Call sites in f that may (transitively, by name-resolved call graph) reach Container.kill / _mark_completed."""
+    from ..util import resolve_callee
+    memo: Dict[int, bool] = {}
+
+    def reaches(fn: Func, d: int) -> bool:
+        k = id(fn.node)
+        if k in memo:
+            return memo[k]
+        memo[k] = False
+        if fn.mod.rel == CT and fn.qual in ("Container.kill", "Container._mark_completed"):
+            memo[k] = True
+            return True
+        if d <= 0:
+            return False
+        if any(isinstance(x, (ast.Yield, ast.YieldFrom)) for x in own_nodes(fn.node)):
+            return False  # calling a generator function only creates the generator; its body runs in tick()
+        for c in own_nodes(fn.node):
+            if isinstance(c, ast.Call):
+                nm = norm.call_name(c)
+                if nm in ("kill", "_mark_completed"):
+                    memo[k] = True
+                    return True
+                for callee in resolve_callee(P, fn, c):
+                    if callee.mod.rel in (RP, CT) and reaches(callee, d - 1):
+                        memo[k] = True
+                        return True
+        return memo[k]
+
+    out = []
+    for c in own_nodes(f.node):
+        if isinstance(c, ast.Call):
+            nm = norm.call_name(c)
+            if nm in ("kill", "_mark_completed"):
+                out.append(c)
+                continue
+            for callee in resolve_callee(P, f, c):
+                if callee.mod.rel in (RP, CT) and reaches(callee, depth):
+                    out.append(c)
+                    break
+    return out
+
+
+def ob_phases(ctx, num):
+    """Per tick, in this order and on every path: suspending containers advance; every active container ticks; the OOM killer
+    runs; ended containers are collected.  Nothing that can end a container (tick, kill) runs after the collection."""
+    pa = pool_analysis(ctx.P)
+    f, g = pa.f, pa.g
+    ticks = [c for c in calls_named(f, "tick") if isinstance(c.func, ast.Attribute)]
+    ctx.count_min(".tick() call sites in ResourcePool.run_one_tick", len(ticks), 1)
+    gone = pa.moves_of("active->gone")
+    enders = ticks + may_kill_calls(ctx.P, f)
+    for c in ticks:
+        lp = enclosing_for(c, f.node)
+        ok = lp is not None and _list_attr(lp.iter) == "active_containers" and isinstance(lp.target, ast.Name) and norm.is_name(c.func.value, lp.target.id)
+        d = f"loop: {stmt_text(lp) if lp else None}"
+        if ok:
+            hid = g.node_of(lp).id
+            skip = g.path_avoiding(hid, {hid, g.exit.id}, {g.node_of(c).id}, edge_ok=lambda a, b, lab, hid=hid: not (a == hid and lab == "done"))
+            byp = g.path_avoiding(g.entry.id, {g.exit.id}, {hid})
+            okb = byp is None or bypass_harmless(g, hid, "active_containers")
+            ok = skip is None and okb
+            d += f"; every active container ticked: {skip is None}; loop on every path (or bypassed only with no active container): {okb}"
+        ctx.ob(num, "K3", "every tick advances every active container exactly once (and only active ones)", ok, f, c, detail=d)
+    for mv in gone:
+        if mv.src_loop is None:
+            continue
+        hid = g.node_of(mv.src_loop).id
+        for c in enders:
+            cid = g.node_of(c).id
+            late = g.path_avoiding(hid, {cid}, set())
+            outer = c
+            while enclosing_for(outer, f.node) is not None:
+                outer = enclosing_for(outer, f.node)
+            before = g.dominates(outer, mv.src_loop)
+            ctx.ob(num, "K3", "everything that can end a container in a tick (tick, OOM kill) runs before that tick's collection of ended containers",
+                   late is None and before, f, c,
+                   detail=f"`{norm.U(c)}` dominates the collection loop: {before}; reachable after it: {late is not None}")
+    # every call that may kill is on every path (the killer cannot be bypassed)
+    for c in may_kill_calls(ctx.P, f):
+        byp = g.path_avoiding(g.entry.id, {g.exit.id}, {g.node_of(c).id})
+        okb = byp is None or bypass_harmless(g, g.node_of(c).id, "active_containers")
+        ctx.ob(num, "K3", "the OOM killer runs in every tick (unless no container is active)", okb, f, c,
+               detail="on every path" if byp is None else f"bypass: {g.describe_path(byp)}" + ("; only with no active container" if okb else ""))
